@@ -104,6 +104,11 @@ def make_scratch(prop, overlay_dirs):
     for dst, srcs in parts.items():
         os.makedirs(os.path.dirname(dst), exist_ok=True)
         text = "".join(open(x, encoding="utf-8").read() for x in srcs)
+        if len(srcs) > 1:
+            # inner attributes (`#![allow(..)]`) are only legal at the top of the file: hoist them
+            lines = text.splitlines(keepends=True)
+            inner = [l for l in lines if l.startswith("#![")]
+            text = "".join(dict.fromkeys(inner)) + "".join(l for l in lines if not l.startswith("#!["))
         mt = max(os.stat(x).st_mtime for x in srcs)
         _write_if_changed(dst, text, mt)
         used.add(dst)
